@@ -125,38 +125,74 @@ def rot_placeholder(d):
 
 
 def run_pytree(run, timeout):
+  structures = [('dict', lambda: {'a': sj.symarr('pa', (3,)), 'b': sj.symarr('pb', (2, 1))}),
+                ('bare-array', lambda: sj.symarr('pa', (3,))),
+                ('list', lambda: [sj.symarr('pa', (2,)), sj.symarr('pb', (1,))]),
+                ('nested', lambda: {'m': {'w': sj.symarr('pa', (2,))}, 'n': (sj.symarr('pb', ()),)})]
+  for sname, mk in structures:
+    run_pytree_one(run, sname, mk(), timeout)
+
+
+def run_pytree_one(run, sname, params, timeout):
   wh = _wh()
-  h = jh.Harness(run, 'pytree', timeout)
+  h = jh.Harness(run, 'pytree[%s]' % sname, timeout)
   ctx = sj.Ctx()
-  params = {'a': sj.symarr('pa', (3,)), 'b': sj.symarr('pb', (2, 1))}
   key = sj.rawkeyarr('k')
   sym = (params, key)
-  out, _, _, _ = sj.run_symbolic(lambda p, k: wh.structured_rotation_pytree(p, k), jh.abstract_of(sym), sym, ctx=ctx)
-  rot, shapes = out
-  shapes_c = jax.tree_util.tree_map(lambda s: np.asarray([int(v) for v in s.reshape(-1)], np.int32), shapes,
-                                    is_leaf=lambda z: isinstance(z, np.ndarray))
-  inv, _, _, _ = sj.run_symbolic(
-      lambda r, k: wh.inverse_structured_rotation_pytree(r, k, jax.tree_util.tree_map(jnp.asarray, shapes_c)),
-      jh.abstract_of((rot_like(rot), key)), (rot, key), ctx=ctx)
-  goals = []
-  for name in params:
-    goals.append(('leaf-%s-shape' % name, tuple(inv[name].shape) == tuple(params[name].shape)))
-    if tuple(inv[name].shape) == tuple(params[name].shape):
-      for idx in np.ndindex(*params[name].shape):
-        goals.append(('leaf-%s%s' % (name, list(idx)), sj.same(inv[name][idx], params[name][idx])))
-    n_in = sum(params[name][idx] * params[name][idx] for idx in np.ndindex(*params[name].shape))
-    n_out = sum(sj.zr(r) * sj.zr(r) for r in rot[name].reshape(-1))
-    goals.append(('leaf-%s-norm' % name, n_out == n_in))
-  bad = h.prove_all('roundtrip', ctx, [], goals, abstract_noise=True)
-  # leaves use different keys: rotating equal leaves can give different results
-  ctx2 = sj.Ctx()
-  p2 = {'a': sj.symarr('q', (2,)), 'b': sj.symarr('q', (2,))}
-  out2, _, _, _ = sj.run_symbolic(lambda p, k: wh.structured_rotation_pytree(p, k), jh.abstract_of((p2, key)), (p2, key), ctx=ctx2)
-  h.witness_sat('leaves-use-different-keys', ctx2, [z3.Or(*[sj.zr(out2[0]['a'][i]) != sj.zr(out2[0]['b'][i]) for i in range(2)])])
-  for nmg, model in bad[:1]:
-    data = {'kind': 'pytree', 'a': sj.model_array(model, params['a']).tolist(), 'b': sj.model_array(model, params['b']).tolist()}
+  isl = lambda z: isinstance(z, np.ndarray)
+  try:
+    out, _, _, _ = sj.run_symbolic(lambda p, k: wh.structured_rotation_pytree(p, k), jh.abstract_of(sym), sym, ctx=ctx)
+    rot, shapes = out
+    shapes_c = jax.tree_util.tree_map(lambda s: np.asarray([int(v) for v in s.reshape(-1)], np.int32), shapes, is_leaf=isl)
+    inv, _, _, _ = sj.run_symbolic(
+        lambda r, k: wh.inverse_structured_rotation_pytree(r, k, jax.tree_util.tree_map(jnp.asarray, shapes_c)),
+        jh.abstract_of((rot_like(rot), key)), (rot, key), ctx=ctx)
+  except Exception as e:   # pylint: disable=broad-except
+    if jh.engine_fault(e):
+      raise
+    run.ob('pytree[%s]:raises' % sname, 'sat', detail=repr(e)[:200])
+    data = {'kind': 'pytree', 'structure': sname, 'leaves': None}
     ok, msg = replay_subprocess('C18', data)
-    run.violation('pytree:' + nmg.split('[')[0], 'structured_rotation_pytree violates %s: %s' % (nmg, msg), data, ok)
+    run.violation('pytree:%s:raises' % sname, 'structured_rotation_pytree on a %s tree: %s' % (sname, msg), data, ok)
+    return
+  goals = []
+  lp = jh.flat_with_paths(params)
+  li = jh.flat_with_paths(inv)
+  lr = jh.flat_with_paths(rot)
+  if [p for p, _ in lp] != [p for p, _ in li]:
+    goals.append(('tree-structure', False))
+  else:
+    for (name, pl), (_, il), (_, rl) in zip(lp, li, lr):
+      goals.append(('leaf%s-shape' % name, tuple(il.shape) == tuple(pl.shape)))
+      if tuple(il.shape) == tuple(pl.shape):
+        for idx in np.ndindex(*pl.shape):
+          goals.append(('leaf%s%s' % (name, list(idx)), sj.same(il[idx], pl[idx])))
+      n_in = sum([pl[idx] * pl[idx] for idx in np.ndindex(*pl.shape)])
+      n_out = sum([sj.zr(r) * sj.zr(r) for r in rl.reshape(-1)])
+      goals.append(('leaf%s-norm' % name, n_out == n_in))
+  bad = h.prove_all('roundtrip', ctx, [], goals, abstract_noise=True)
+  if sname == 'dict':
+    # leaves use different keys: rotating equal leaves can give different results
+    ctx2 = sj.Ctx()
+    p2 = {'a': sj.symarr('q', (2,)), 'b': sj.symarr('q', (2,))}
+    out2, _, _, _ = sj.run_symbolic(lambda p, k: wh.structured_rotation_pytree(p, k), jh.abstract_of((p2, key)), (p2, key), ctx=ctx2)
+    h.witness_sat('leaves-use-different-keys', ctx2, [z3.Or(*[sj.zr(out2[0]['a'][i]) != sj.zr(out2[0]['b'][i]) for i in range(2)])])
+  for nmg, model in bad[:1]:
+    leaves = [sj.model_array(model, l).tolist() if model is not None else np.ones(l.shape).tolist() for _, l in lp]
+    data = {'kind': 'pytree', 'structure': sname, 'leaves': leaves}
+    ok, msg = replay_subprocess('C18', data)
+    run.violation('pytree:%s:%s' % (sname, nmg.split('[')[0]), 'structured_rotation_pytree (%s tree) violates %s: %s' % (sname, nmg, msg), data, ok)
+
+
+def concrete_tree(sname, leaves):
+  mk = lambda i, shape: jnp.asarray(np.asarray(leaves[i], dtype=np.float64)).reshape(shape) if leaves else jnp.ones(shape)
+  if sname == 'dict':
+    return {'a': mk(0, (3,)), 'b': mk(1, (2, 1))}
+  if sname == 'bare-array':
+    return mk(0, (3,))
+  if sname == 'list':
+    return [mk(0, (2,)), mk(1, (1,))]
+  return {'m': {'w': mk(0, (2,))}, 'n': (mk(1, ()),)}
 
 
 def rot_like(rot):
@@ -175,7 +211,16 @@ def replay(data):
     exp = np.asarray(sylvester(n), dtype=np.float64) @ np.asarray(x)
     d = float(np.max(np.abs(got - exp)))
     return d > 1e-6 * (1 + float(np.max(np.abs(exp)))), 'got %s expected %s' % (got[:8], exp[:8])
-  key = jax.random.PRNGKey(7)
+  last = (False, 'no key tried')
+  for seed in range(8):      # the property quantifies over keys: a violation under any key is a violation
+    last = _replay_with_key(data, jax.random.PRNGKey(seed))
+    if last[0]:
+      return last[0], 'key PRNGKey(%d): %s' % (seed, last[1])
+  return last
+
+
+def _replay_with_key(data, key):
+  wh = _wh()
   if data['kind'] == 'rot':
     x = jnp.asarray(np.asarray(data['x'], dtype=np.float64)).reshape(data['shape'])
     try:
@@ -189,9 +234,12 @@ def replay(data):
     if z.shape != x.shape or float(jnp.max(jnp.abs(z - x))) > 1e-6 * (1 + float(jnp.max(jnp.abs(x)))):
       msgs.append('inverse gives %s for %s' % (np.asarray(z).tolist(), np.asarray(x).tolist()))
     return bool(msgs), '; '.join(msgs) or 'rotation round trip fine'
-  p = {'a': jnp.asarray(np.asarray(data['a'], dtype=np.float64)), 'b': jnp.asarray(np.asarray(data['b'], dtype=np.float64))}
-  r, s = wh.structured_rotation_pytree(p, key)
-  z = wh.inverse_structured_rotation_pytree(r, key, s)
+  p = concrete_tree(data['structure'], data['leaves'])
+  try:
+    r, s = wh.structured_rotation_pytree(p, key)
+    z = wh.inverse_structured_rotation_pytree(r, key, s)
+  except Exception as e:   # pylint: disable=broad-except
+    return True, 'real call raises %r' % (e,)
   d, where = jh.max_discrepancy(z, p)
   return d > 1e-6, 'pytree round trip discrepancy %.3g %s' % (d, where)
 
